@@ -32,6 +32,17 @@ CHECKS = {
                 note="Tables are read through the exported Go functions by the harness.",
                 ref="7 C17"),
 }
+CHECKS["C18"] = dict(
+    tech="TLA+ pipeline and fan-out protocol specs model-checked by TLC with every reader/worker/header fault (safety + liveness under weak fairness); scenario table run against the binary and judged by TLC (ObsC18); in-process bad-record runs trace-validated against the spec (TracePipeline)",
+    text="Design level: in every interleaving and for every fault point Main returns the error and terminates (the as-coded header hand-off is kept as a must-fail regression). "
+         "Code level: every documented invalid-input condition x command x input file x record position is run and must exit non-zero within the deadline.",
+    note="The scenario table lists the conditions of the statement; it is not an exhaustive grammar of invalid inputs (C16 covers FASTA byte streams). A Go panic counts as non-zero exit. Binary built with the toolchain's default cgo setting.",
+    ref="7 C18")
+CHECKS["C19"] = dict(
+    tech="TLC model-checks a write fault at every k in the pipeline and fan-out specs (DoneOK, ErrReported); exhaustive k-th-Write fault injection into every exported entry point with traces validated against the spec; binary under strace ENOSPC injection and /dev/full; verdicts by TLC (ObsC19)",
+    text="Fault enumeration is complete per input: a counting run gives W, then every k in 1..W is failed; the model covers every k in every interleaving for small N.",
+    note="Representative inputs (3-5 records) per command; write = one io.Writer.Write / write(2) call.",
+    ref="7 C19")
 PENDING = {}
 ALL = ["C%02d" % i for i in range(1, 20)]
 
